@@ -947,12 +947,15 @@ pub fn check_roll(r: &Roll) -> (Vec<Violation>, RunStats) {
             st.hit("rolling_lazy_iterator_written_into_caller_buffer");
             let (m, bl) = (b.series, b.len);
             let want_ok = bl == 0 || m == bl || m == 1;
+            let either = bl == 0 && m > 1;
             let mut seen = b.log.clone();
             seen.sort();
             let all: Vec<usize> = (0..bl).collect();
             let mut bad: Option<String> = None;
             if !b.oob.is_empty() {
                 bad = Some("uset out of bounds".into());
+            } else if either {
+                // empty buffer, longer series: filling nothing or refusing are both fine
             } else if want_ok {
                 if let Some(msg) = &b.refused {
                     bad = Some(format!("the write was refused: {msg}"));
